@@ -49,7 +49,8 @@ class TapLeaf:
         return (
             type(self) is type(other)
             and self.tapleaf_version == other.tapleaf_version
-            and self.tap_script == other.tap_script
+            # compare what the leaf hash commits to, the serialized script
+            and self.tap_script.raw_serialize() == other.tap_script.raw_serialize()
         )
 
     def hash(self):
